@@ -832,6 +832,11 @@ func (e *Exec) cutLoopHead(fn *ssa.Function, fc *FuncContract, l *loopInfo, st *
 			continue
 		}
 		st.vals[phi] = e.freshVal(st, "lp."+phi.Comment, phi.Type())
+		if phi.Comment == "rangeindex" && isIntType(phi.Type()) {
+			// hidden index of a `range` loop: starts at -1, incremented by one per
+			// iteration and bounded by a length (<= 2^40): never below -1, never overflows
+			e.assume(st, and(e.le(e.sc.idxLit(-1), st.vals[phi].S), e.le(st.vals[phi].S, e.sc.idxLit(maxLen))))
+		}
 	}
 	keys, all := e.loopModified(fn, l)
 	for k, srt := range keys {
